@@ -37,9 +37,9 @@ type stubCache struct {
 	mu      sync.Mutex
 	peekLog []peekRecord // every Peek and what it answered, in call order
 	table   map[gostatsd.Source]peekEntry
-	sink  chan gostatsd.Source
-	info  chan gostatsd.InstanceInfo
-	peeks int
+	sink    chan gostatsd.Source
+	info    chan gostatsd.InstanceInfo
+	peeks   int
 }
 
 func (c *stubCache) Peek(s gostatsd.Source) (*gostatsd.Instance, bool) {
@@ -50,11 +50,15 @@ func (c *stubCache) Peek(s gostatsd.Source) (*gostatsd.Instance, bool) {
 	c.peekLog = append(c.peekLog, peekRecord{s, p})
 	return p.inst, p.hit
 }
-func (c *stubCache) IpSink() chan<- gostatsd.Source             { return c.sink }
-func (c *stubCache) InfoSource() <-chan gostatsd.InstanceInfo   { return c.info }
-func (c *stubCache) EstimatedTags() int                         { return 2 }
-func (c *stubCache) set(s gostatsd.Source, p peekEntry)         { c.mu.Lock(); c.table[s] = p; c.mu.Unlock() }
-func (c *stubCache) get(s gostatsd.Source) peekEntry            { c.mu.Lock(); defer c.mu.Unlock(); return c.table[s] }
+func (c *stubCache) IpSink() chan<- gostatsd.Source           { return c.sink }
+func (c *stubCache) InfoSource() <-chan gostatsd.InstanceInfo { return c.info }
+func (c *stubCache) EstimatedTags() int                       { return 2 }
+func (c *stubCache) set(s gostatsd.Source, p peekEntry)       { c.mu.Lock(); c.table[s] = p; c.mu.Unlock() }
+func (c *stubCache) get(s gostatsd.Source) peekEntry {
+	c.mu.Lock()
+	defer c.mu.Unlock()
+	return c.table[s]
+}
 
 var c11Instances = []*gostatsd.Instance{
 	{ID: "i-aaa", Tags: gostatsd.Tags{"inst:a", "az:x"}},
@@ -76,10 +80,10 @@ type c11Item struct {
 }
 
 type c11Op struct {
-	mm      *gostatsd.MetricMap
-	ev      *gostatsd.Event
-	items   []*c11Item
-	toPark  []*c11Item // items that miss the cache: handed to the stage only when the dispatch call gets that far
+	mm     *gostatsd.MetricMap
+	ev     *gostatsd.Event
+	items  []*c11Item
+	toPark []*c11Item // items that miss the cache: handed to the stage only when the dispatch call gets that far
 }
 
 func (c11) Run(e *Env) {
@@ -150,7 +154,7 @@ func (c11) Run(e *Env) {
 	outstanding := map[string]bool{} // written to IpSink, not yet answered
 	needLookup := map[string]bool{}  // parked, lookup neither outstanding nor accepted yet
 	completedOnce := map[string]bool{}
-	want := Model{}         // every item's final identity (filled when the item is released)
+	want := Model{}                   // every item's final identity (filled when the item is released)
 	wantEvents := map[string]string{} // title -> expected rendering
 	seqBits := map[string]int{}
 	var waitCalls []*struct {
